@@ -18,7 +18,7 @@ import traceback
 import numpy as np
 
 from qv import workloads
-from qv.lib import EXCH, Rec, diff_snap, install_exchange_counter, rng_for, snap_atoms, trace, vstr
+from qv.lib import Rec, diff_snap, install_exchange_counter, rng_for, snap_atoms, trace, vstr, exch_finding_applies, exch_reset
 
 LEVEL = "exploration"
 RULE = (
@@ -107,17 +107,15 @@ def run_one(rec: Rec, spec, steps, tag):
             rec.viol(key, what, witness)
 
     krec = KeyedRec()
-    EXCH["ok"] = 0
-    EXCH["second_started"] = False
+    exch_reset()
 
     def on_trial(t):
         rec.count("trials")
         rec.evaluations += 1
-        if EXCH["ok"] >= 2:
+        if exch_finding_applies():
             st["two_exchanges_in_plain_composite"] = True
             rec.count("trials_with_two_exchanges_in_plain_composite")
-        EXCH["ok"] = 0
-        EXCH["second_started"] = False
+        exch_reset()
         if composite:
             rec.count("composite_table_trials")
         b, a = t.before, t.after
@@ -246,7 +244,7 @@ def run_one(rec: Rec, spec, steps, tag):
     try:
         trace(mc, steps, snap=snap, on_trial=on_trial, resnap=True)
     except Exception as ex:  # noqa: BLE001
-        if EXCH["ok"] >= 2 or EXCH["second_started"]:
+        if exch_finding_applies():
             st["two_exchanges_in_plain_composite"] = True
         krec.viol(f"C05/run-raised/{classify_exception(ex)}", f"simulation raised {type(ex).__name__}: {ex}"[:300], {**wit0, "traceback": traceback.format_exc()[-600:]})
 
